@@ -374,6 +374,8 @@ var c18BundlePos = []struct {
 	{[]string{"b"}, "b"}, {[]string{"c"}, "c"}, {[]string{"@s/d"}, "@s/d"}, {[]string{"x"}, "b"},
 	{[]string{"b", "c"}, "c"}, {[]string{"b", "@s/d"}, "@s/d"}, {[]string{"c", "b"}, "b"},
 	{[]string{"b", "c", "@s/d"}, "@s/d"}, {[]string{"b", "c", "b"}, "b"},
+	// nested folders named by an alias: the folder name differs from the package inside
+	{[]string{"b", "x"}, "c"}, {[]string{"c", "y"}, "b"},
 }
 
 func c18Base() svcContents {
